@@ -56,6 +56,8 @@ func main() {
 			os.Exit(1)
 		}
 		os.Exit(0)
+	case "anchors": // prints anchor_baseline.go (development aid; see anchors.go)
+		os.Exit(cmdAnchors("/repo", defaultVerif()))
 	case "wire-schema": // prints the table TBL-wire freezes (development aid)
 		w, err := Load("/repo", "quick", "", nil)
 		if err != nil {
